@@ -187,6 +187,7 @@ func c02Plan(tier string) []PlanItem {
 		PlanItem{scnCtxCancel("ctx-cancel-then-stop-K1", K1, true), d},
 		PlanItem{failingStop(scnStop("stop/stopctx+wait+to100ms", K1, Item{Do: "stopctx", WaitForDemote: true, Timeout: 100 * ms}, "A", "B")), d},
 		PlanItem{failingStop(scnStop("stop/stopctx+expired-ctx", K1, Item{Do: "stopctx", CtxTimeout: -1}, "A", "B")), d},
+		PlanItem{longDemote(scnStop("stop/stopctx+del+wait", K1, Item{Do: "stopctx", DeleteKey: true, WaitForDemote: true}, "A", "B", "C")), d},
 		PlanItem{scnRestartLate("restart-late/stop-K1", K1, Item{Do: "stop"}), d},
 		PlanItem{scnRestartLate("restart-late/stopctx-K1", K1, Item{Do: "stopctx"}), d},
 		PlanItem{scnRestartFollower("restart-follower/stop-K1", K1, Item{Do: "stop"}), d + 1},
